@@ -57,6 +57,8 @@ TRUSTED = ['GEOS is_valid / unary_union / equals; numpy nanmean, pad (derived 2-
            'semantics given to them in Core/NpExpr.lean (cross-checked by the `pipe` operations on every generated dataset)',
            'the source translator harness/pipelines.py (Python ast -> NpExpr): part of the trusted base; what it cannot render becomes '
            'NpExpr.unsupported and breaks Ems.C06.pipelines_translated; its output is validated against the running code on every run']
+TECHNIQUE = ('Lean 4 proof over a model that is partly translated from the source on every run (the numpy pipelines of the polygon '
+             'constructors, harness/pipelines.py -> Gen/Pipelines.lean) and partly hand-written + differential correspondence with the implementation')
 LEVEL_NOTE = ('GEOS is_valid enters as a truth table (and is compared with an exact ring-validity test); unary_union / equals are GEOS on '
               'both sides of the geometry oracle; bounds are compared where every stored bound / node belongs to a kept polygon. '
               'The *_pipeline_spec theorems are about terms regenerated from the source text on every run, for all grid sizes: the '
